@@ -21,6 +21,7 @@ from .zoneinfo import timezone_name
 
 URI_META = re.compile(r'([\\`\u0080-\uffff])')
 STR_META = re.compile(r'([\\"\$\u0080-\uffff])')
+CTRL_META = re.compile(r'([\x00-\x1f])')
 
 
 def str_sub(match):
@@ -41,6 +42,11 @@ def uri_sub(match):
         return '\\u%04x' % o
     elif c in '\\`':
         return '\\%s' % c
+
+
+def ctrl_sub(match):
+    # Control characters have no literal form in ZINC strings and URIs
+    return '\\u%04x' % ord(match.group(0))
 
 
 def dump_grid(grid):
@@ -171,15 +177,16 @@ def dump_str(str_value, version=LATEST_VER):
     # Replace other escapes.
     for orig, esc in STR_SUB:
         str_value = str_value.replace(orig, esc)
+    # Whatever control characters are left have no short escape.
+    str_value = CTRL_META.sub(ctrl_sub, str_value)
     return '"%s"' % str_value
 
 
 def dump_uri(uri_value, version=LATEST_VER):
     # Replace special characters.
     uri_value = URI_META.sub(uri_sub, uri_value)
-    # Replace other escapes.
-    for orig, esc in STR_SUB:
-        uri_value = uri_value.replace(orig, esc)
+    # URIs have no short escapes for control characters.
+    uri_value = CTRL_META.sub(ctrl_sub, uri_value)
     return '`%s`' % uri_value
 
 
